@@ -170,3 +170,27 @@ M('c08-teardown-panic-first-only', [(TD, '''        let error_strings = errors
             .iter()
             .take(1)
             .map(''')], {'C08': r'R08\.4', 'C09': r'R09\.teardown_panic'})
+
+# ---- C10 -------------------------------------------------------------------------------------
+CNT = 'src/counter.rs'
+M('c10-load-store', [(CNT, '''        self.actual_count
+            .fetch_add(1, core::sync::atomic::Ordering::SeqCst)''', '''        let v = self.actual_count.load(core::sync::atomic::Ordering::SeqCst);
+        self.actual_count.store(v + 1, core::sync::atomic::Ordering::SeqCst);
+        v''')], {'C10': r'R10\.[12]'})
+M('c10-relaxed', [('src/state.rs', '''            .fetch_add(1, core::sync::atomic::Ordering::SeqCst)''', '''            .fetch_add(1, core::sync::atomic::Ordering::Relaxed)''')], {'C10': r'R10\.1'})
+M('c10-check-then-act', [(CNT, '''        self.actual_count
+            .fetch_add(1, core::sync::atomic::Ordering::SeqCst)''', '''        if self.actual_count.load(core::sync::atomic::Ordering::Relaxed) < usize::MAX / 2 {
+            self.actual_count
+                .fetch_add(1, core::sync::atomic::Ordering::SeqCst)
+        } else {
+            usize::MAX / 2
+        }''')], {'C10': r'R10\.[12]'})
+M('c10-shared-cache', [('src/state.rs', '''    next_ordered_call_index: AtomicUsize,
+    pub panic_reasons''', '''    next_ordered_call_index: AtomicUsize,
+    pub last_call: std::sync::Mutex<Option<TypeId>>,
+    pub panic_reasons'''), ('src/state.rs', '''            next_ordered_call_index: AtomicUsize::new(0),
+            panic_reasons''', '''            next_ordered_call_index: AtomicUsize::new(0),
+            last_call: std::sync::Mutex::new(None),
+            panic_reasons''')], {'C10': r'R10\.3'})
+M('c10-position-plus-one', [('src/call_pattern.rs', 'find_responder_by_call_index(&self.responders, self.call_counter.fetch_add())', 'find_responder_by_call_index(&self.responders, self.call_counter.fetch_add() + 1)')], {'C10': r'R10\.2'})
+M('h-c10-rename-bump', [('src/state.rs', 'pub fn bump_ordered_call_index(&self)', 'pub fn take_next_slot(&self)'), ('src/eval.rs', 'self.shared_state.bump_ordered_call_index()', 'self.shared_state.take_next_slot()')], silent=['C10'])
